@@ -25,7 +25,7 @@ T = {
     "T12": "T12 the World (prelude/store_prelude.rs): an entry-level model of the store directory written for this verification -- create_new+append creates a fresh empty file or fails, append extends a file at its end or fails leaving a possibly torn tail, flush moves buffered records into the file, remove_file removes one whole file, open/metadata/sorted_fileids read it; LogWriter::new / LogIterator::new (lseek on a regular file) do not fail; utils::{datafile_name,hintfile_name,sorted_fileids,timestamp} are stubs (format!, read_dir, chrono)",
     "T12S": "T12S durability in the World: File::sync_all / LogWriter::sync set `synced` of that one file to its current record count on Ok (and never beyond it on Err); append / flush never change `synced`; BufWriter::get_ref returns the file the writer was created on",
     "TBUF": "TBUF in unit log the position-tracking wrappers of bufio.rs are shims whose pos() is the logical offset; unit bufio VERIFIES the whole of src/storage/bitcask/bufio.rs (10 functions) against shim Read / Write / Seek traits with a ghost logical position (a call moves it by exactly the number of bytes reported; a failed read / write moves nothing, as std documents; positions stay below 2^63): pos() == logical position after new / read / write / flush / seek, no overflow. The link between the two units' shims is by reading; a Kani harness on the verbatim file (thorough tier, bounded) exercises the real std BufReader / BufWriter over a Cursor",
-    "TLOG": "in unit store the World-level contracts of the log.rs API (contracts/log.spec) are ASSUMED (R-stub-body); unit log verifies the bodies of log.rs only against local byte-level contracts (contracts/log_local.spec): counter arithmetic, slice bounds after re-mapping, cache transparency, open flags, (pos,len) bookkeeping, flush before acknowledgement. The refinement between the two levels is argued, not machine-checked",
+    "TLOG": "TLOG in unit store the World-level (record-level) contracts of the log.rs API (contracts/log.spec) are ASSUMED (R-stub-body); unit log verifies the bodies of log.rs against local byte-level contracts (contracts/log_local.spec): counter arithmetic, slice bounds after re-mapping, cache transparency, open flags, (pos,len) bookkeeping, flush before acknowledgement, end-of-file detection. The step from the byte level to the record level is machine-checked as pure lemmas in unit refine over an explicit abstraction (the records of a file are what decoding its bytes from the front yields): refine_append, refine_read, refine_next, refine_next_none, refine_copy. What remains by reading: that the hypotheses / conclusions of those lemmas are the clauses of the two spec files, and the durability / torn-tail part of the World (T12, T12S)",
     "TARC": "R-arc: Arc<Context>/Arc<Mutex<Writer>>/Arc<ArrayQueue<Reader>> are read as single owners; that Writer, Readers and Handle share ONE Context (wired by the unverified Bitcask::open) is assumed. No interleaving is explored",
     "T13s": "T13 environment bounds assumed as World well-formedness: every file shorter than 2^62 bytes, fewer than 2^48 records per file, file ids below 2^62",
     "TKV": "TKV the storage engine behind the KeyValueStorage trait is a map from byte strings to byte strings (prelude/cmd_prelude.rs): set / get / del that return Ok have exactly the map effect; for the Bitcask engine this is what C01 proves of Handle::{put,get,delete} (unit store), but `impl KeyValueStorage for Handle` (three one-line delegations) is linked by inspection, not by the verifier",
@@ -84,7 +84,7 @@ PROPS = {
         ],
     },
     "C01": {
-        "units": ["store", "log", "bufio"], "label_prefixes": ["C01.", "C04.read.valid_location", "C04.copy.valid_location"], "level": "proof",
+        "units": ["store", "log", "bufio", "refine"], "label_prefixes": ["C01.", "C04.read.valid_location", "C04.copy.valid_location"], "level": "proof",
         "trusted": ["T1", "T4", "T8", "T11", "T12", "T13", "T13s", "TLOG", "TBUF", "TARC", "RW", "DERIVE"] + ["T9", "T10"],
         "assumptions": [
             "step contracts are proved on Writer::{put,delete,merge,new_active_datafile} and Reader::get (the Handle methods only add the closed check and the lock / pool hand-off, T8); 'for every history' follows because every operation requires and re-establishes the same invariant (Index + WriterWf + StatsWeak) and states its effect on the whole map",
@@ -93,7 +93,7 @@ PROPS = {
         ],
     },
     "C02": {
-        "units": ["store", "log", "bufio"], "label_prefixes": ["C02.", "C01.write.appended", "C01.append.index_exact", "C01.bufio."], "level": "proof",
+        "units": ["store", "log", "bufio", "refine"], "label_prefixes": ["C02.", "C01.write.appended", "C01.append.index_exact", "C01.bufio.", "C01.refine.append"], "level": "proof",
         "trusted": ["T1", "T4", "T8", "T11", "T12", "T13", "T13s", "TLOG", "TBUF", "TARC", "RW", "DERIVE"],
         "assumptions": [
             "start-up is specified independently of the code as spec_recover(w) = fold over the directory log (files in ascending id order, hint file instead of data file where one exists; a value binds, a tombstone unbinds); rebuild_storage is proved to compute exactly it, and put / delete / rollover are proved to keep spec_recover(w) == key directory",
@@ -189,7 +189,7 @@ PROPS = {
         ],
     },
     "C05": {
-        "units": ["store", "log"], "label_prefixes": ["C05.", "C01.merge", "C12.merge", "C04.copy.valid_location"], "level": "proof",
+        "units": ["store", "log", "refine"], "label_prefixes": ["C05.", "C01.merge", "C12.merge", "C04.copy.valid_location"], "level": "proof",
         "trusted": ["T1", "T4", "T8", "T9", "T10", "T11", "T12", "T13", "T13s", "TLOG", "TARC", "RW", "DERIVE"],
         "assumptions": [
             "fileids_to_merge is verified to return a subset of the files with statistics -- nothing else is assumed about the selection, so merge's contract holds for EVERY selected subset (the f64 threshold arithmetic is irrelevant)",
